@@ -249,15 +249,21 @@ class LanguageClassesFactory:
                 left_asset
             )
             if left_field is not None and right_field is not None:
-                for base_name, first_field, second_field in (
-                        (full_name, left_field, right_field),
-                        (full_name_flipped, right_field, left_field)):
-                    for candidate in (base_name, '%s_%s_%s' %
-                            (base_name, first_field, second_field)):
-                        if candidate in assoc_entry['definitions'] and \
-                                set(assoc_entry['definitions'][candidate]\
-                                ['properties']) == {left_field, right_field}:
-                            return candidate
+                # The name and the asset types do not always tell the
+                # alternatives apart (same asset types with other field
+                # names, swapped field names, underscores in names). The two
+                # fields together with the asset types they hold do.
+                asset_ref = '#/definitions/LanguageAsset/definitions/'
+                for candidate, candidate_entry in \
+                        assoc_entry['definitions'].items():
+                    properties = candidate_entry['properties']
+                    if left_field != right_field and \
+                            set(properties) == {left_field, right_field} and \
+                            properties[left_field]['items']['$ref'] == \
+                                asset_ref + left_asset and \
+                            properties[right_field]['items']['$ref'] == \
+                                asset_ref + right_asset:
+                        return candidate
             if not full_name in assoc_entry['definitions']:
                 if not full_name_flipped in assoc_entry['definitions']:
                     raise LookupError(
